@@ -269,7 +269,7 @@ def main(argv=None):
     ev = {
         "property_id": pid, "tier": tier, "seed": seed, "level": level,
         "coverage": {
-            "obligations": len(real_obs), "discharged": discharged + len(known_hits),
+            "obligations": len(real_obs), "discharged": discharged + sum(1 for _, o in known_hits if not o.get("bounded")),
             "discharged_by_backend": by_backend,
             "known_finding_obligations": len(known_hits),
             "checker_cmd": f"python3-vt -m pyvc.driver {pid} --tier {tier}",
